@@ -2,6 +2,7 @@ package api
 
 import (
 	"fmt"
+	"reflect"
 	"sort"
 	"strconv"
 	"unicode"
@@ -319,6 +320,9 @@ func countValues(c b6.UntypedCollection) ([]*kv, error) {
 			break
 		}
 
+		if !CanUseAsMapKey(i.Value()) {
+			return nil, fmt.Errorf("can't count values of type %T", i.Value())
+		}
 		var e *kv
 		if e, ok = m[i.Value()]; ok {
 			e.value++
@@ -333,6 +337,13 @@ func countValues(c b6.UntypedCollection) ([]*kv, error) {
 	}
 
 	return kvs, nil
+}
+
+// CanUseAsMapKey returns true if v can be used as the key of a go map.
+// Values like collections, areas and routes can't, since they hold
+// slices or functions, and using them as a key panics at runtime.
+func CanUseAsMapKey(v interface{}) bool {
+	return v == nil || reflect.ValueOf(v).Comparable()
 }
 
 func numerical(any interface{}) bool {
